@@ -529,11 +529,9 @@ func (join *invertibleTypeJoin) Start() error {
 }
 
 func (join *invertibleTypeJoin) Close() error {
-	if err := join.parentSide.plan.Close(); err != nil {
-		return err
-	}
-
-	return join.childSide.plan.Close()
+	// Both sides must be closed also when closing the first one fails, otherwise the iterator
+	// of the other side outlives the transaction.
+	return errors.Join(join.parentSide.plan.Close(), join.childSide.plan.Close())
 }
 
 func (join *invertibleTypeJoin) Prefixes(prefixes []keys.Walkable) {
